@@ -4,56 +4,56 @@ namespace AsynqModel.Futures
 
 /-! ### the subscribers' exception channel -/
 
-/-- no subscriber of the list raises an Exception whose repr() raises -/
-def noBad (subs : List Sub) : Bool := subs.all (fun s => s.2 != .raisingBad)
+/-- no subscriber of the list raises an Exception `e` for which `safe_repr(e)` raises (`Beh.raisingWorse`) -/
+def noWorse (subs : List Sub) : Bool := subs.all (fun s => s.2 != .raisingWorse)
 
-/-- the operation subscribes a handler that raises an un-printable exception -/
-def Op.bad : Op → Bool
-  | .subscribe _ .raisingBad => true
+/-- the operation subscribes a handler that raises such an exception -/
+def Op.worse : Op → Bool
+  | .subscribe _ .raisingWorse => true
   | _ => false
 
-/-- hypothesis of `C10_spec_holds_partial`: no operation of the history subscribes such a handler -/
-def noBadOps (ops : List Op) : Bool := ops.all (fun op => !op.bad)
+/-- hypothesis of `C10_spec_holds` (the open finding `subscriber-repr-error-escapes`): no operation of the history subscribes such a handler -/
+def noWorseOps (ops : List Op) : Bool := ops.all (fun op => !op.worse)
 
-@[simp] theorem noBad_nil : noBad [] = true := rfl
+@[simp] theorem noWorse_nil : noWorse [] = true := rfl
 
-theorem noBad_eraseSub (subs : List Sub) (j : Nat) (h : noBad subs = true) : noBad (eraseSub subs j) = true := by
+theorem noWorse_eraseSub (subs : List Sub) (j : Nat) (h : noWorse subs = true) : noWorse (eraseSub subs j) = true := by
   induction subs with
   | nil => rfl
   | cons s ss ih =>
-    simp only [noBad, List.all_cons, Bool.and_eq_true] at h ⊢ ih
+    simp only [noWorse, List.all_cons, Bool.and_eq_true] at h ⊢ ih
     simp only [eraseSub]
     split
     · exact h.2
     · simp only [List.all_cons, Bool.and_eq_true]; exact ⟨h.1, ih h.2⟩
 
-theorem noBad_single (i : Nat) (b : Beh) : noBad [(i, b)] = (b != .raisingBad) := by simp [noBad]
+theorem noWorse_single (i : Nat) (b : Beh) : noWorse [(i, b)] = (b != .raisingWorse) := by simp [noWorse]
 
-theorem noBad_append (a b : List Sub) : noBad (a ++ b) = (noBad a && noBad b) := by simp [noBad]
+theorem noWorse_append (a b : List Sub) : noWorse (a ++ b) = (noWorse a && noWorse b) := by simp [noWorse]
 
-theorem noBad_applyBeh (live : List Sub) (s : Sub) (h : noBad live = true) : noBad (applyBeh live s) = true := by
+theorem noWorse_applyBeh (live : List Sub) (s : Sub) (h : noWorse live = true) : noWorse (applyBeh live s) = true := by
   unfold applyBeh
   split
-  · exact noBad_eraseSub _ _ h
-  · exact noBad_eraseSub _ _ h
-  · rw [noBad_append, h]; rfl
+  · exact noWorse_eraseSub _ _ h
+  · exact noWorse_eraseSub _ _ h
+  · rw [noWorse_append, h]; rfl
   · exact h
 
-theorem noBad_foldl (l live : List Sub) (h : noBad live = true) : noBad (l.foldl applyBeh live) = true := by
+theorem noWorse_foldl (l live : List Sub) (h : noWorse live = true) : noWorse (l.foldl applyBeh live) = true := by
   induction l generalizing live with
   | nil => exact h
-  | cons s ss ih => exact ih _ (noBad_applyBeh live s h)
+  | cons s ss ih => exact ih _ (noWorse_applyBeh live s h)
 
-theorem noBad_afterNotify (subs : List Sub) (h : noBad subs = true) : noBad (afterNotify subs) = true :=
-  noBad_foldl subs subs h
+theorem noWorse_afterNotify (subs : List Sub) (h : noWorse subs = true) : noWorse (afterNotify subs) = true :=
+  noWorse_foldl subs subs h
 
-/-- printable exceptions only: whatever the live list, the first exception of the round (if any) is printable -/
-theorem firstRaise_noBad (subs live : List Sub) (h : noBad subs = true) : firstRaise live subs ≠ some true := by
+/-- whatever the live list, `safe_repr` of the first exception of the round (if any) returns -/
+theorem firstRaise_noWorse (subs live : List Sub) (h : noWorse subs = true) : firstRaise live subs ≠ some true := by
   induction subs generalizing live with
   | nil => simp [firstRaise]
   | cons s ss ih =>
-    simp only [noBad, List.all_cons, Bool.and_eq_true, bne_iff_ne, ne_eq] at h
-    have hss : noBad ss = true := by simpa [noBad] using h.2
+    simp only [noWorse, List.all_cons, Bool.and_eq_true, bne_iff_ne, ne_eq] at h
+    have hss : noWorse ss = true := by simpa [noWorse] using h.2
     simp only [firstRaise]
     cases hb : behRaises live s with
     | none => exact ih _ hss
@@ -64,10 +64,15 @@ theorem firstRaise_noBad (subs live : List Sub) (h : noBad subs = true) : firstR
       obtain ⟨i, beh⟩ := s
       cases beh <;> simp_all [behRaises] <;> (try (split at hb <;> simp_all))
 
-/-- **printable exceptions are swallowed**: if no subscriber raises an un-printable exception, nothing escapes -/
-theorem subEscapes_noBad (subs : List Sub) (_h : noBad subs = true) : subEscapes subs = false := rfl
+/-- if no subscriber raises an exception that defeats `safe_repr`, nothing escapes from `_computed` -/
+theorem subEscapes_noWorse (subs : List Sub) (h : noWorse subs = true) : subEscapes subs = false := by
+  have := firstRaise_noWorse subs subs h
+  unfold subEscapes
+  cases hf : firstRaise subs subs with
+  | none => rfl
+  | some b => cases b <;> simp_all
 
-/-- the observer's state mirrors the future (simulation relation used for `C10_spec_holds_partial`, whose hypothesis is the last field) -/
+/-- the observer's state mirrors the future (simulation relation used for `C10_spec_holds`, whose hypotheses are the last two fields) -/
 structure Rel (k : Kind) (w : Watch) (f : Fut) : Prop where
   kind : f.kind = k
   known : w.known = f.out
@@ -75,7 +80,8 @@ structure Rel (k : Kind) (w : Watch) (f : Fut) : Prop where
   runs : w.runs = f.runs
   done : k.isTask = true → w.done = !f.alive
   sink : k.sinking = true → f.subs = []
-  stats : k.isTask = true → f.statsOk = true     -- hypothesis of C10_spec_holds_partial: the perf-stats step can run
+  stats : k.isTask = true → f.statsOk = true     -- hypothesis `hstats` of C10_spec_holds: the perf-stats step can run
+  noworse : noWorse f.subs = true                -- hypothesis `hops` of C10_spec_holds: no subscriber defeats safe_repr
 
 /-- a subscriber called with a future that holds `o` makes exactly the notification the property asks for -/
 theorem notifyOne_of_out (f : Fut) (o : Outc) (h : f.out = some o) (s : Sub) : notifyOne f s = notif o s := by
@@ -114,7 +120,7 @@ theorem notifiedAll_self (subs : List Sub) (o : Outc) :
 theorem rel_init (k : Kind) (c : Cfg) (hs : k.isTask = true → c.statsOk = true) : Rel k (watchInit k) (init k c) := by
   cases k <;> constructor <;> simp_all [watchInit, init, Kind.sinking, Kind.isTask]
 
-local macro "rel_fields" : tactic => `(tactic| (constructor <;> (try simp_all [Kind.sinking, Kind.isTask, noBad_afterNotify, noBad_eraseSub, noBad_append, noBad_single])))
+local macro "rel_fields" : tactic => `(tactic| (constructor <;> (try simp_all [Kind.sinking, Kind.isTask, noWorse_afterNotify, noWorse_eraseSub, noWorse_append, noWorse_single])))
 local macro "rel_close" : tactic => `(tactic| first | (refine ⟨_, rfl, ?_⟩; rel_fields) | rel_fields)
 
 local macro "rel_step_tac" : tactic => `(tactic| (
@@ -126,81 +132,81 @@ local macro "rel_step_tac" : tactic => `(tactic| (
 theorem rel_step_value (k : Kind) (w : Watch) (f : Fut) (h : Rel k w f) :
     ∃ w', watchStep k w (observe f .value).2 = .ok w' ∧
       Rel k { w' with runs := (observe f .value).2.runs } (observe f .value).1 := by
-  obtain ⟨hk, hkn, hs, hr, hb, hsink, hst⟩ := h
+  obtain ⟨hk, hkn, hs, hr, hb, hsink, hst, hnw⟩ := h
   subst hk
-  have hesc : subEscapes f.subs = false := rfl
+  have hesc : subEscapes f.subs = false := subEscapes_noWorse f.subs hnw
   rel_step_tac
 
 theorem rel_step_error (k : Kind) (w : Watch) (f : Fut) (h : Rel k w f) :
     ∃ w', watchStep k w (observe f .error).2 = .ok w' ∧
       Rel k { w' with runs := (observe f .error).2.runs } (observe f .error).1 := by
-  obtain ⟨hk, hkn, hs, hr, hb, hsink, hst⟩ := h
+  obtain ⟨hk, hkn, hs, hr, hb, hsink, hst, hnw⟩ := h
   subst hk
-  have hesc : subEscapes f.subs = false := rfl
+  have hesc : subEscapes f.subs = false := subEscapes_noWorse f.subs hnw
   rel_step_tac
 
 theorem rel_step_call (k : Kind) (w : Watch) (f : Fut) (h : Rel k w f) :
     ∃ w', watchStep k w (observe f .call).2 = .ok w' ∧
       Rel k { w' with runs := (observe f .call).2.runs } (observe f .call).1 := by
-  obtain ⟨hk, hkn, hs, hr, hb, hsink, hst⟩ := h
+  obtain ⟨hk, hkn, hs, hr, hb, hsink, hst, hnw⟩ := h
   subst hk
-  have hesc : subEscapes f.subs = false := rfl
+  have hesc : subEscapes f.subs = false := subEscapes_noWorse f.subs hnw
   rel_step_tac
 
 theorem rel_step_isComputed (k : Kind) (w : Watch) (f : Fut) (h : Rel k w f) :
     ∃ w', watchStep k w (observe f .isComputed).2 = .ok w' ∧
       Rel k { w' with runs := (observe f .isComputed).2.runs } (observe f .isComputed).1 := by
-  obtain ⟨hk, hkn, hs, hr, hb, hsink, hst⟩ := h
+  obtain ⟨hk, hkn, hs, hr, hb, hsink, hst, hnw⟩ := h
   subst hk
-  have hesc : subEscapes f.subs = false := rfl
+  have hesc : subEscapes f.subs = false := subEscapes_noWorse f.subs hnw
   rel_step_tac
 
 theorem rel_step_setValue (k : Kind) (w : Watch) (f : Fut) (v : Nat) (h : Rel k w f) :
     ∃ w', watchStep k w (observe f (.setValue v)).2 = .ok w' ∧
       Rel k { w' with runs := (observe f (.setValue v)).2.runs } (observe f (.setValue v)).1 := by
-  obtain ⟨hk, hkn, hs, hr, hb, hsink, hst⟩ := h
+  obtain ⟨hk, hkn, hs, hr, hb, hsink, hst, hnw⟩ := h
   subst hk
-  have hesc : subEscapes f.subs = false := rfl
+  have hesc : subEscapes f.subs = false := subEscapes_noWorse f.subs hnw
   rel_step_tac
 
 theorem rel_step_setError (k : Kind) (w : Watch) (f : Fut) (e : Nat) (h : Rel k w f) :
     ∃ w', watchStep k w (observe f (.setError e)).2 = .ok w' ∧
       Rel k { w' with runs := (observe f (.setError e)).2.runs } (observe f (.setError e)).1 := by
-  obtain ⟨hk, hkn, hs, hr, hb, hsink, hst⟩ := h
+  obtain ⟨hk, hkn, hs, hr, hb, hsink, hst, hnw⟩ := h
   subst hk
-  have hesc : subEscapes f.subs = false := rfl
+  have hesc : subEscapes f.subs = false := subEscapes_noWorse f.subs hnw
   rel_step_tac
 
 theorem rel_step_setErrorNone (k : Kind) (w : Watch) (f : Fut) (h : Rel k w f) :
     ∃ w', watchStep k w (observe f .setErrorNone).2 = .ok w' ∧
       Rel k { w' with runs := (observe f .setErrorNone).2.runs } (observe f .setErrorNone).1 := by
-  obtain ⟨hk, hkn, hs, hr, hb, hsink, hst⟩ := h
+  obtain ⟨hk, hkn, hs, hr, hb, hsink, hst, hnw⟩ := h
   subst hk
-  have hesc : subEscapes f.subs = false := rfl
+  have hesc : subEscapes f.subs = false := subEscapes_noWorse f.subs hnw
   rel_step_tac
 
 theorem rel_step_reset (k : Kind) (w : Watch) (f : Fut) (h : Rel k w f) :
     ∃ w', watchStep k w (observe f .reset).2 = .ok w' ∧
       Rel k { w' with runs := (observe f .reset).2.runs } (observe f .reset).1 := by
-  obtain ⟨hk, hkn, hs, hr, hb, hsink, hst⟩ := h
+  obtain ⟨hk, hkn, hs, hr, hb, hsink, hst, hnw⟩ := h
   subst hk
-  have hesc : subEscapes f.subs = false := rfl
+  have hesc : subEscapes f.subs = false := subEscapes_noWorse f.subs hnw
   rel_step_tac
 
-theorem rel_step_subscribe (k : Kind) (w : Watch) (f : Fut) (i : Nat) (r : Beh) (h : Rel k w f) :
+theorem rel_step_subscribe (k : Kind) (w : Watch) (f : Fut) (i : Nat) (r : Beh) (h : Rel k w f) (hw : r ≠ .raisingWorse) :
     ∃ w', watchStep k w (observe f (.subscribe i r)).2 = .ok w' ∧
       Rel k { w' with runs := (observe f (.subscribe i r)).2.runs } (observe f (.subscribe i r)).1 := by
-  obtain ⟨hk, hkn, hs, hr, hb, hsink, hst⟩ := h
+  obtain ⟨hk, hkn, hs, hr, hb, hsink, hst, hnw⟩ := h
   subst hk
-  have hesc : subEscapes f.subs = false := rfl
+  have hesc : subEscapes f.subs = false := subEscapes_noWorse f.subs hnw
   rel_step_tac
 
 theorem rel_step_unsubscribe (k : Kind) (w : Watch) (f : Fut) (i : Nat) (h : Rel k w f) :
     ∃ w', watchStep k w (observe f (.unsubscribe i)).2 = .ok w' ∧
       Rel k { w' with runs := (observe f (.unsubscribe i)).2.runs } (observe f (.unsubscribe i)).1 := by
-  obtain ⟨hk, hkn, hs, hr, hb, hsink, hst⟩ := h
+  obtain ⟨hk, hkn, hs, hr, hb, hsink, hst, hnw⟩ := h
   subst hk
-  have hesc : subEscapes f.subs = false := rfl
+  have hesc : subEscapes f.subs = false := subEscapes_noWorse f.subs hnw
   cases hh : hasSub f.subs i <;> cases hk : f.kind <;> cases ho : f.out <;>
     simp_all [watchStep, observe, step, unsubStep, Kind.sinking] <;>
     (try rel_close)
@@ -208,28 +214,28 @@ theorem rel_step_unsubscribe (k : Kind) (w : Watch) (f : Fut) (i : Nat) (h : Rel
 theorem rel_step_option (k : Kind) (w : Watch) (f : Fut) (d : DbgOpt) (on : Bool) (h : Rel k w f) :
     ∃ w', watchStep k w (observe f (.option d on)).2 = .ok w' ∧
       Rel k { w' with runs := (observe f (.option d on)).2.runs } (observe f (.option d on)).1 := by
-  obtain ⟨hk, hkn, hs, hr, hb, hsink, hst⟩ := h
+  obtain ⟨hk, hkn, hs, hr, hb, hsink, hst, hnw⟩ := h
   subst hk
-  have hesc : subEscapes f.subs = false := rfl
+  have hesc : subEscapes f.subs = false := subEscapes_noWorse f.subs hnw
   cases d <;> rel_step_tac
 
 theorem rel_step_raiseIfError (k : Kind) (w : Watch) (f : Fut) (h : Rel k w f) :
     ∃ w', watchStep k w (observe f .raiseIfError).2 = .ok w' ∧
       Rel k { w' with runs := (observe f .raiseIfError).2.runs } (observe f .raiseIfError).1 := by
-  obtain ⟨hk, hkn, hs, hr, hb, hsink, hst⟩ := h
+  obtain ⟨hk, hkn, hs, hr, hb, hsink, hst, hnw⟩ := h
   subst hk
-  have hesc : subEscapes f.subs = false := rfl
+  have hesc : subEscapes f.subs = false := subEscapes_noWorse f.subs hnw
   rel_step_tac
 
 theorem rel_step_inspect (k : Kind) (w : Watch) (f : Fut) (h : Rel k w f) :
     ∃ w', watchStep k w (observe f .inspect).2 = .ok w' ∧
       Rel k { w' with runs := (observe f .inspect).2.runs } (observe f .inspect).1 := by
-  obtain ⟨hk, hkn, hs, hr, hb, hsink, hst⟩ := h
+  obtain ⟨hk, hkn, hs, hr, hb, hsink, hst, hnw⟩ := h
   subst hk
-  have hesc : subEscapes f.subs = false := rfl
+  have hesc : subEscapes f.subs = false := subEscapes_noWorse f.subs hnw
   rel_step_tac
 
-theorem rel_step (k : Kind) (w : Watch) (f : Fut) (op : Op) (h : Rel k w f) :
+theorem rel_step (k : Kind) (w : Watch) (f : Fut) (op : Op) (h : Rel k w f) (hop : op.worse = false) :
     ∃ w', watchStep k w (observe f op).2 = .ok w' ∧
       Rel k { w' with runs := (observe f op).2.runs } (observe f op).1 := by
   cases op with
@@ -241,20 +247,21 @@ theorem rel_step (k : Kind) (w : Watch) (f : Fut) (op : Op) (h : Rel k w f) :
   | setError e => exact rel_step_setError k w f e h
   | setErrorNone => exact rel_step_setErrorNone k w f h
   | reset => exact rel_step_reset k w f h
-  | subscribe i r => exact rel_step_subscribe k w f i r h
+  | subscribe i r => exact rel_step_subscribe k w f i r h (by cases r <;> simp_all [Op.worse])
   | unsubscribe i => exact rel_step_unsubscribe k w f i h
   | option d on => exact rel_step_option k w f d on h
   | raiseIfError => exact rel_step_raiseIfError k w f h
   | inspect => exact rel_step_inspect k w f h
 
-theorem watchRun_ok (k : Kind) (ops : List Op) (w : Watch) (f : Fut) (h : Rel k w f) :
+theorem watchRun_ok (k : Kind) (ops : List Op) (w : Watch) (f : Fut) (h : Rel k w f) (hops : noWorseOps ops = true) :
     ∃ w', watchRun k w (run f ops) = .ok w' := by
   induction ops generalizing w f with
   | nil => exact ⟨w, rfl⟩
   | cons op ops ih =>
-    obtain ⟨w', h1, h2⟩ := rel_step k w f op h
+    simp only [noWorseOps, List.all_cons, Bool.and_eq_true, Bool.not_eq_true'] at hops
+    obtain ⟨w', h1, h2⟩ := rel_step k w f op h hops.1
     simp only [run, watchRun, h1]
-    exact ih _ _ h2
+    exact ih _ _ h2 (by simpa [noWorseOps] using hops.2)
 
 /-! ### how often the computation runs -/
 
